@@ -14,7 +14,7 @@
 use super::lattice::Subjects;
 use super::shapes::{self, err_class, Role, Shape};
 use super::tree::{self, T};
-use super::{canon, encoding_check, identity, normalize};
+use super::{canon, encoding_check, identity, identity_own, normalize};
 use mc_core::{catch, Args, Run, Tier};
 use pczt::roles::tx_extractor::TransactionExtractor;
 use pczt::Pczt;
@@ -67,10 +67,23 @@ pub fn check_state(shape: &Shape, id0: &[u8; 32], p: &Pczt) -> Result<Vec<String
         Err(pn) => return Err(format!("Verifier panicked: {pn}")),
         Ok(Err(e)) => outs.push(format!("verifier:err:{}", err_class(&e))),
         Ok(Ok(v)) => {
-            if identity(&v)? != Some(*id0) {
+            // (the full identity, all opinions, is evaluated on the state itself; a pass that must
+            // not change anything is compared through the crate's own opinion)
+            if identity_own(&v) != Some(*id0) {
                 return Err("identity differs after the Verifier pass".into());
             }
             outs.push("verifier:ok".into());
+        }
+    }
+    // low-level Signer pass that signs nothing
+    match catch(|| shapes::lowlevel_pass(p.clone())) {
+        Err(pn) => return Err(format!("low-level Signer panicked: {pn}")),
+        Ok(Err(e)) => outs.push(format!("lowlevel:err:{}", err_class(&e))),
+        Ok(Ok(v)) => {
+            if identity_own(&v) != Some(*id0) {
+                return Err("identity differs after a low-level Signer pass that signs nothing".into());
+            }
+            outs.push("lowlevel:ok".into());
         }
     }
     // split and rejoin
@@ -307,6 +320,13 @@ pub fn explore(run: &Run, args: &Args, subjects: &[Subjects]) {
             let mut roles = s.shape.roles(false);
             if quick && shapes::is_memo_shape(s.shape.name) {
                 roles.retain(|r| !matches!(r, Role::RedactLight | Role::RedactHeavy));
+            }
+            if quick && (s.shape.name.starts_with("cltv") || s.shape.name == "t2t_v5") {
+                roles.retain(|r| !matches!(r, Role::RedactCompact | Role::RedactHeavy));
+            }
+            if quick && s.shape.name == "multi_v6" {
+                // (the quick tier bounds this multiset at 7 roles; the redactions run on the other shapes)
+                roles.retain(|r| !matches!(r, Role::RedactLight | Role::RedactCompact | Role::RedactHeavy));
             }
             if quick && roles.len() > 8 {
                 // quick tier: bound the multiset at 8 roles (the heavy redaction is the one dropped first)
